@@ -27,9 +27,12 @@ var c12Shapes = []string{
 	"unary-bad-bin-md", "open-bad-bin-md", "unary-with-trailer", "open-bidi", "open-client",
 	"body", "bad-body", "trailer-ok", "trailer-err", "reset",
 	"reset-unknown-type", "body+trailer", "unary-tiny-timeout", "unary-bad-timeout", "open-id0",
+	"empty-body",
 }
 
-const c12NSym = 50 // 25 shapes x 2 ids
+const c12NShapes = 26
+
+const c12NSym = 2 * c12NShapes // shapes x 2 ids
 
 const c12ProbeID = 1000003
 
@@ -38,8 +41,8 @@ var c12Body []byte
 func init() { c12Body, _ = proto.Marshal(&svc.BV{Value: []byte("payload")}) }
 
 func c12Envelope(sym int, n int) *wire.Rpc {
-	shape := c12Shapes[sym%25]
-	id := uint64(1 + sym/25)
+	shape := c12Shapes[sym%c12NShapes]
+	id := uint64(1 + sym/c12NShapes)
 	tag := fmt.Sprintf("x%d", n)
 	kv := func(extra ...*goatorepo.KeyValue) []*goatorepo.KeyValue {
 		return append([]*goatorepo.KeyValue{{Key: svc.TagKey, Value: tag}}, extra...)
@@ -92,6 +95,9 @@ func c12Envelope(sym int, n int) *wire.Rpc {
 		return &wire.Rpc{Id: id, Header: hdr(svc.MBidi), Body: body}
 	case "bad-body":
 		return &wire.Rpc{Id: id, Header: hdr(svc.MBidi), Body: &goatorepo.Body{Data: []byte{0xff, 0xff, 0xff, 0x01}}}
+	case "empty-body":
+		// a message whose encoding has no bytes (every field at its default): still a body
+		return &wire.Rpc{Id: id, Header: hdr(svc.MBidi), Body: &goatorepo.Body{Data: []byte{}}}
 	case "trailer-ok":
 		return &wire.Rpc{Id: id, Header: hdr(svc.MBidi), Status: okSt, Trailer: &goatorepo.Trailer{}}
 	case "trailer-err":
@@ -167,11 +173,11 @@ func c12List(tier string) []c12Case {
 }
 
 type c12Env struct {
-	impl *svc.Impl
-	srv  *goat.Server
-	mu   sync.Mutex
+	impl                  *svc.Impl
+	srv                   *goat.Server
+	mu                    sync.Mutex
 	unaryRuns, streamRuns int
-	probeRuns int
+	probeRuns             int
 }
 
 // c12One feeds one envelope sequence to a fresh server connection and checks it.
@@ -312,8 +318,8 @@ func c12OneMode(tier string, seq []*wire.Rpc, syms []int, res *core.Result, desc
 		expResets := map[uint64]int{}
 		anyOpen := 0
 		for _, s := range syms {
-			id := uint64(1 + s/25)
-			switch c12Shapes[s%25] {
+			id := uint64(1 + s/c12NShapes)
+			switch c12Shapes[s%c12NShapes] {
 			case "unary", "unary-no-body", "unary-tiny-timeout", "unary-bad-timeout":
 				minU++
 				maxU++
@@ -325,7 +331,7 @@ func c12OneMode(tier string, seq []*wire.Rpc, syms []int, res *core.Result, desc
 			case "open-id0":
 				opened[0] = true
 				anyOpen++
-			case "body", "bad-body", "body+trailer", "open-bad-bin-md":
+			case "body", "bad-body", "empty-body", "body+trailer", "open-bad-bin-md":
 				expResets[id]++
 			}
 		}
@@ -395,7 +401,7 @@ func c12OneMode(tier string, seq []*wire.Rpc, syms []int, res *core.Result, desc
 func c12Desc(syms []int) string {
 	var parts []string
 	for _, s := range syms {
-		parts = append(parts, fmt.Sprintf("%s#%d", c12Shapes[s%25], 1+s/25))
+		parts = append(parts, fmt.Sprintf("%s#%d", c12Shapes[s%c12NShapes], 1+s/c12NShapes))
 	}
 	return "[" + strings.Join(parts, ", ") + "]"
 }
@@ -464,7 +470,7 @@ func c12Run(tier string, seed int64, idx int) *core.Result {
 		// and at most 6 unary-type requests (8 workers; their replies wait for the peer to read)
 		var pool, unaryish []int
 		for sym := 0; sym < c12NSym; sym++ {
-			switch c12Shapes[sym%25] {
+			switch c12Shapes[sym%c12NShapes] {
 			case "open-bidi", "open-client", "reset-unknown-type", "open-id0":
 			case "unary", "unary-no-body", "unary-bad-body", "unary-with-trailer", "unary-tiny-timeout", "unary-bad-timeout", "unary-bad-bin-md":
 				unaryish = append(unaryish, sym)
@@ -496,7 +502,7 @@ func c12Run(tier string, seed int64, idx int) *core.Result {
 	case "mutate":
 		// field-level mutations of a valid conversation: a unary call, a bidi stream with two bodies and half-close
 		for i := 0; i < c.N; i++ {
-			conv := []*wire.Rpc{c12Envelope(7, 0), c12Envelope(13+25, 1), c12Envelope(15+25, 2), c12Envelope(15+25, 3), c12Envelope(17+25, 4)}
+			conv := []*wire.Rpc{c12Envelope(7, 0), c12Envelope(13+c12NShapes, 1), c12Envelope(15+c12NShapes, 2), c12Envelope(15+c12NShapes, 3), c12Envelope(17+c12NShapes, 4)}
 			nm := 1 + r.Intn(3)
 			var what []string
 			for j := 0; j < nm; j++ {
@@ -576,13 +582,15 @@ func c12Mutate(r *rand.Rand, e *wire.Rpc) string {
 
 func init() {
 	core.Register(&core.Prop{
-		ID:    "C12",
-		Level: "exploration",
-		Rule:  "alphabet = 25 envelope shapes x 2 stream ids (50 symbols); ALL sequences of length <= 3 (quick: 127 550) / <= 4 (thorough: 6 377 550) are fed by a scripted peer to a fresh server connection, each followed by a valid probe request that must be answered correctly, a reference-dispatcher check (unary handler invocation count in the allowed range, no handler for wrong destination / malformed requests, one reset per body addressed to a never-opened id), and the end of the connection after which Serve must return; plus sequences of 2..12 envelopes that open no stream fed by a half-duplex peer (it writes the whole batch and the probe before reading anything), seeded field-level mutations of a valid conversation and random sequences of length 5..40 (and 10^5 of length 5 in thorough). distinct_nontrivial = enumerated sequences (all distinct by construction) + distinct other batches.",
-		Plan:  func(tier string, seed int64) int { return len(c12List(tier)) },
-		Run:   c12Run,
+		ID:         "C12",
+		Level:      "exploration",
+		Rule:       "alphabet = 26 envelope shapes x 2 stream ids (52 symbols); ALL sequences of length <= 3 (quick: 143 364) / <= 4 (thorough: 7 454 980) are fed by a scripted peer to a fresh server connection, each followed by a valid probe request that must be answered correctly, a reference-dispatcher check (unary handler invocation count in the allowed range, no handler for wrong destination / malformed requests, one reset per body addressed to a never-opened id), and the end of the connection after which Serve must return; plus sequences of 2..12 envelopes that open no stream fed by a half-duplex peer (it writes the whole batch and the probe before reading anything), seeded field-level mutations of a valid conversation and random sequences of length 5..40 (and 10^5 of length 5 in thorough). distinct_nontrivial = enumerated sequences (all distinct by construction) + distinct other batches.",
+		Plan:       func(tier string, seed int64) int { return len(c12List(tier)) },
+		Run:        c12Run,
 		Exhaustive: func(string) bool { return true },
-		RequiredStats: func(string) []string { return []string{"sequences_enum", "sequences_mutate", "sequences_random", "sequences_half-duplex"} },
+		RequiredStats: func(string) []string {
+			return []string{"sequences_enum", "sequences_mutate", "sequences_random", "sequences_half-duplex"}
+		},
 		Assumptions: []string{"exhaustive = every sequence over the 50-symbol alphabet up to the stated length; schedules within a sequence are not enumerated", "stream handlers alternate between returning at once and echoing until end of stream"},
 		Budget:      nil,
 	})
